@@ -8,7 +8,7 @@ ROOT = Path(__file__).resolve().parent.parent
 CLAIMED = {
     "C11": dict(
         category="model_checking", design_ref="DESIGN.md §5 C11",
-        technique="TLA+ spec TransferControl checked by TLC; TLC state graph replayed on the real object (every edge, every path to depth 4/5); recorded 64-bit histories trace-validated by TLC",
+        technique="TLA+ spec TransferControl checked by TLC and shown by TLC to refine the integer fragment CreditInd, whose invariant (acked <= sent, in flight <= max(window, last chunk)) Apalache proves inductively for all integers; TLC state graph replayed on the real object (every edge, every path to depth 4/5); recorded 64-bit histories trace-validated by TLC",
         text="TLC exhausts the credit/ack/cancel/advance/resume state machine over a small domain (adversary and loop-following producer configurations, invariants AckedLeSent, ProducerBound and the step properties GrantSound, AckNoRelease, CancelSticky, CancelReported). The resulting labelled state graph is replayed on the real TransferControl (every edge once from a shortest path, every label path up to depth 4 quick / 5 thorough) and random 200-call histories over 64-bit values are validated by TLC against the same specification instantiated with 64-bit arithmetic.",
         note="Trusts TLC, the U64 arithmetic module, and the harness projection (offsets, cancel_reason, peer, replay_chunks_from). The two waits are evaluated with an expired deadline. record_sent arguments stay below 2^60 and chunk lengths below 2^48, as the property bounds them."),
     "C13": dict(
